@@ -40,6 +40,8 @@ type Result struct {
 	AliasSeen        int
 	// RootOrder: root response keys in execution order (mutations)
 	RootOrder []string
+	// ResolverOrder: resolver keys in document (depth-first) order
+	ResolverOrder []string
 	// Pos describes the type of each resolver position reached (for drawing overrides)
 	Pos map[string]PosInfo
 	// ListLen: for list-typed resolver positions, the length the plan gives
@@ -345,6 +347,7 @@ func (x *executor) field(obj *ast.Definition, objKey string, fd *ast.FieldDefini
 	if x.IsResolver(obj.Name, fd.Name) {
 		valueKey = fpath
 		x.res.Resolvers = append(x.res.Resolvers, fpath)
+		x.res.ResolverOrder = append(x.res.ResolverOrder, fpath)
 		if x.res.Pos == nil {
 			x.res.Pos = map[string]PosInfo{}
 			x.res.ListLen = map[string]int{}
